@@ -1,7 +1,12 @@
 //! Native replay: runs one harness with the input vector given on the command line.
 //! usage: replay <harness> <type:value,type:value,...>
+#[cfg(kani)]
+fn main() {}
+
+#[cfg(not(kani))]
 use vharness::vnd::REPLAY;
 
+#[cfg(not(kani))]
 fn main() {
     let args: Vec<String> = std::env::args().collect();
     if args.len() < 2 {
